@@ -52,7 +52,7 @@ impl Property for C13 {
         }
     }
     fn rule(&self) -> &'static str {
-        "generated crate trees (depth <= 3: name.rs / name/mod.rs, #[path] into the same and other directories, inline nesting, cfg_if! branches (also with an inline module that declares an out-of-line one), cfg_match! arms, the fallback to the declaring file's own directory, cfg_attr(path), a file reached twice, decoy files nobody declares, #[rustfmt::skip] on the declaration, inner skip, ignore entries (also one matching the root itself), @generated with format_generated_files=false, skip_children, root given as a relative or an absolute path), every file unformatted; the real binary runs in files mode on a copy (one case in four instead feeds the root on standard input: nothing may be written, the root's formatted text is printed); oracle: a reference model built from the Rust Reference's module file rules says which files are reachable and not excluded; the set of files whose bytes changed must equal that set, every changed file must hold exactly its own formatted text (formatted once), exit status 0; non-trivial = the tree has a decoy or an exclusion and at least 3 files; distinct by case content"
+        "generated crate trees (depth <= 3: name.rs / name/mod.rs, #[path] into the same and other directories, inline nesting, cfg_if! branches (also with an inline module that declares an out-of-line one), cfg_match! arms, the fallback to the declaring file's own directory, cfg_attr(path), a file reached twice (under one spelling of its path or under two, `x.rs` and `updir/../x.rs`), decoy files nobody declares, #[rustfmt::skip] on the declaration, inner skip, ignore entries (also one matching the root itself), @generated with format_generated_files=false, #[rustfmt::skip] on an inline module that declares an out-of-line one (present or missing), skip_children, root given as a relative or an absolute path), every file unformatted; the real binary runs in files mode on a copy (one case in four instead feeds the root on standard input: nothing may be written, the root's formatted text is printed); oracle: a reference model built from the Rust Reference's module file rules says which files are reachable and not excluded; the set of files whose bytes changed must equal that set, every changed file must hold exactly its own formatted text, no file may appear twice in the report of a preceding read-only `--emit json` run (formatted once), exit status 0; non-trivial = the tree has a decoy or an exclusion and at least 3 files; distinct by case content"
     }
     fn assumptions(&self) -> Vec<&'static str> {
         vec!["skipped / inner-skipped / ignored / @generated modules are generated as leaves (what happens to their children is not claimed)", "a file's expected text is what the same bytes give on standard input under the default configuration"]
@@ -108,6 +108,29 @@ impl Property for C13 {
         } else {
             args.push(tree.root.clone());
         }
+        // "each such file is formatted once even if reached twice": the json report (read-only)
+        // has one entry per emitted file that differs
+        let mut jargs: Vec<String> = vec!["--emit".into(), "json".into()];
+        jargs.extend(args.iter().cloned());
+        let mut emitted_twice: Option<String> = None;
+        if let Some((_c, jout, _e)) = run_rustfmt(r, &dir, &jargs, None) {
+            if let Ok(Value::Array(entries)) = serde_json::from_str::<Value>(&jout) {
+                let mut seen: std::collections::BTreeSet<std::path::PathBuf> = Default::default();
+                for e in &entries {
+                    if let Some(n) = e["name"].as_str() {
+                        let p = dir.join(n);
+                        let canon = std::fs::canonicalize(&p).unwrap_or(p);
+                        if !seen.insert(canon) {
+                            emitted_twice = Some(n.to_owned());
+                        }
+                    }
+                }
+            }
+        }
+        if snapshot(&dir) != before {
+            let _ = std::fs::remove_dir_all(&dir);
+            return Outcome::fail("json-mode-wrote", "--emit json changed the tree".to_string()).nontrivial(true);
+        }
         let Some((code, _out, err)) = run_rustfmt(r, &dir, &args, None) else {
             let _ = std::fs::remove_dir_all(&dir);
             return Outcome::skip("cannot-run-rustfmt");
@@ -122,6 +145,9 @@ impl Property for C13 {
         let has_special = tree.files.iter().any(|f| matches!(f.role, Role::Decoy | Role::Excluded));
         o.nontrivial = has_special && tree.files.len() >= 3;
         let listing = || -> String { tree.files.iter().map(|f| format!("--- {} [{:?}]\n{}", f.path, f.role, f.content)).collect::<Vec<_>>().join("") };
+        if let Some(n) = emitted_twice {
+            return Outcome::fail("emitted-twice", format!("{n} appears twice in the json report: the file is formatted twice\n{}", listing())).nontrivial(true);
+        }
         if code != Some(0) {
             return Outcome::fail("exit-status", format!("rustfmt {:?} exited with {code:?}\nstderr: {err}\n{}", args, listing())).nontrivial(true);
         }
